@@ -348,12 +348,14 @@ def coq_deps(relfile, seen=None):
     return seen
 
 
-def shrink_list(items, still_fails, max_runs=60):
-    """Delta debugging over a list; still_fails(list) -> bool."""
+def shrink_list(items, still_fails, max_runs=60, budget_s=100):
+    """Delta debugging over a list; still_fails(list) -> bool.  Bounded by a number of runs and by wall time
+    (replays of hangs wait for their watchdogs): the result is then not minimal, only smaller."""
     runs = 0
     n = 2
     cur = list(items)
-    while len(cur) >= 2 and runs < max_runs:
+    t0 = time.time()
+    while len(cur) >= 2 and runs < max_runs and time.time() - t0 < budget_s:
         chunk = max(1, len(cur) // n)
         reduced = False
         for i in range(0, len(cur), chunk):
@@ -364,7 +366,7 @@ def shrink_list(items, still_fails, max_runs=60):
                 n = max(n - 1, 2)
                 reduced = True
                 break
-            if runs >= max_runs:
+            if runs >= max_runs or time.time() - t0 >= budget_s:
                 break
         if not reduced:
             if chunk == 1:
